@@ -1165,3 +1165,13 @@ Proof.
   exists 8, [], (init (Qmake 440 1)), (Qmake 440 1), (Qmake 880 1), (Qmake (-1) 1), (Qmake 2 1).
   split; [reflexivity|]. vm_compute. reflexivity.
 Qed.
+
+(* steps <= 0 is clamped to 1: one tone is played although `steps` says none *)
+Lemma sweep_nonpositive_steps_refuted :
+  exists pin neg tbl st s e d steps,
+    c_int steps <= 0 /\
+    length (tones (snd (dstep pin neg tbl st (Sweep s e d steps)))) = 1%nat.
+Proof.
+  exists 8, neg_literal, [], (init (Qmake 440 1)), (Qmake 440 1), (Qmake 880 1), (Qmake 50 1), (Qmake 0 1).
+  vm_compute. split; [discriminate|reflexivity].
+Qed.
